@@ -41,6 +41,7 @@ type SpecFun struct {
 }
 
 type Clause struct {
+	Unproved bool // ensures clause that callers assume but that is not discharged (reported as an assumption)
 	Kind string // requires ensures invariant decreases
 	Tags []string
 	E    *Expr
@@ -351,12 +352,17 @@ func parseContract(key string, clauses []string, where string) (*Contract, error
 		}
 		switch word[0] {
 		case "requires", "ensures":
+			unproved := false
+			if word[0] == "ensures" && strings.HasPrefix(rest, "unproved ") {
+				unproved = true
+				rest = strings.TrimSpace(rest[len("unproved "):])
+			}
 			tags, body := parseTags(rest)
 			e, err := ParseExpr(body, w)
 			if err != nil {
 				return nil, err
 			}
-			cl := &Clause{Kind: word[0], Tags: tags, E: e, Src: body}
+			cl := &Clause{Kind: word[0], Tags: tags, E: e, Src: body, Unproved: unproved}
 			for _, t := range tags {
 				c.Props[t] = true
 			}
